@@ -1,14 +1,19 @@
 #!/usr/bin/env python3
-"""Verify every delivered mutant under /tmp/mut/*.out/* and keep the confirmed ones as /verif/seeded/<id>-<X>/."""
+"""intake_mutants.py [suffix] [Cxx…]: verify the delivered mutants under /tmp/mut/<Cxx>.out/<X> (all if none is named) and keep the
+confirmed ones as /verif/seeded/<Cxx>-<X><suffix>/."""
 import os, sys, json, glob, shutil, subprocess
 sys.path.insert(0, os.path.dirname(os.path.abspath(__file__)))
 import mutant
 VERIF = mutant.VERIF
+SUFFIX = sys.argv[1] if len(sys.argv) > 1 else ''
+ONLY = set(sys.argv[2:])
 for d in sorted(glob.glob('/tmp/mut/C*.out/*')):
+    if ONLY and os.path.basename(os.path.dirname(d)).split('.')[0] not in ONLY:
+        continue
     if not os.path.exists(os.path.join(d, 'patch.diff')):
         continue
     pid = os.path.basename(os.path.dirname(d)).split('.')[0]
-    name = '%s-%s' % (pid, os.path.basename(d))
+    name = '%s-%s%s' % (pid, os.path.basename(d), SUFFIX)
     dest = os.path.join(VERIF, 'seeded', name)
     if os.path.exists(os.path.join(dest, 'meta.json')):
         continue
